@@ -7,3 +7,26 @@ pub struct Fixture;
 pub fn fixture_dir() -> std::path::PathBuf {
     crate::engine::verif_dir().join("fixture_embed")
 }
+
+/// independent model of the fixture: raw std::fs walk of the fixture folder
+pub fn fixture_tree() -> crate::model::Tree {
+    use crate::model::{Node, Tree};
+    fn walk(dir: &std::path::Path, prefix: &str, t: &mut Tree) {
+        let mut entries: Vec<_> = std::fs::read_dir(dir).unwrap().filter_map(|e| e.ok()).collect();
+        entries.sort_by_key(|e| e.file_name());
+        for e in entries {
+            let name = e.file_name().to_string_lossy().into_owned();
+            let p = format!("{}/{}", prefix, name);
+            let ft = e.file_type().unwrap();
+            if ft.is_dir() {
+                t.m.insert(p.clone(), Node::Dir);
+                walk(&e.path(), &p, t);
+            } else {
+                t.m.insert(p, Node::File(std::sync::Arc::new(std::fs::read(e.path()).unwrap())));
+            }
+        }
+    }
+    let mut t = Tree::new();
+    walk(&fixture_dir(), "", &mut t);
+    t
+}
